@@ -14,6 +14,14 @@ func init() { gens["C19"] = genC19 }
 // c19Tables renders the identity tables the real code built:  `E`  (rejected)  or
 // `T <nchan> <channelsPerPixel> <n> (name number code row col rows cols)* G <ng> (first n)*`.
 func c19Tables(t dastard.VerifC19Tables) string {
+	if t.ConfigOnly && t.Active != nil {
+		// a Lancero Configure request: how it was answered and the active cards it left
+		k := "KA"
+		if t.Rejected {
+			k = "EA"
+		}
+		return k + " " + ints(t.Active)
+	}
 	if t.ConfigOnly && !t.Rejected {
 		return "K" // a Configure request that was accepted
 	}
@@ -393,6 +401,8 @@ func c19History(r *Rng, o *Out) {
 	var sb strings.Builder
 	fmt.Fprintf(&sb, "H %d", nsteps)
 	switch c := r.Intn(100); {
+	case c < 22: // Lancero through the real Configure: any ActiveCards list
+		c19LanceroConfigure(r, o)
 	case c < 62: // Lancero
 		steps := make([]dastard.VerifC19LanceroStep, 0, nsteps)
 		devs, firstRow, sepCards, sepCols, total := c19LanceroCfg(r)
@@ -653,4 +663,128 @@ func c19AbacoSameTotals(r *Rng, prev [][][2]int) [][][2]int {
 		out[k], out[j] = out[j], out[k]
 	}
 	return [][][2]int{out}
+}
+
+var c19ConfCount int
+
+// c19LanceroConfigure sends ONE LanceroSource Configure requests with arbitrary ActiveCards lists (sorted, unsorted,
+// repeats at any distance, cards that do not exist, empty) and numbering parameters, each followed (mostly) by the
+// table-building part of Start.
+//
+//	H n D nrows ndev (devnum ncols)* (Q firstRow sepCards sepCols nact card* | PL)* start
+//	OUT K (KA|EA nact devnum*  |  tables)* files
+func c19LanceroConfigure(r *Rng, o *Out) {
+	nrows := r.Pick(1, 2, 3, 4, 8, 8, 16, 30, 32)
+	ndev := r.Pick(1, 2, 2, 3, 3, 4, 5)
+	var avail []dastard.VerifC19Dev
+	num := 0
+	for k := 0; k < ndev; k++ {
+		if r.Chance(20) {
+			num += r.Range(1, 3) // holes in the device numbers
+		}
+		avail = append(avail, dastard.VerifC19Dev{Devnum: num, Ncols: r.Pick(1, 2, 2, 4, 8, r.Range(0, 3)), Nrows: nrows})
+		num++
+	}
+	ncolsOf := map[int]int{}
+	for _, d := range avail {
+		ncolsOf[d.Devnum] = d.Ncols
+	}
+	pick := func() int { return avail[r.Intn(len(avail))].Devnum }
+	list := func() []int {
+		// a base: all cards or a subset, in order or shuffled
+		var l []int
+		for _, d := range avail {
+			if r.Chance(75) {
+				l = append(l, d.Devnum)
+			}
+		}
+		if len(l) == 0 {
+			l = []int{pick()}
+		}
+		if r.Chance(40) {
+			for k := len(l) - 1; k > 0; k-- {
+				j := r.Intn(k + 1)
+				l[k], l[j] = l[j], l[k]
+			}
+		}
+		ins := func(pos, v int) {
+			l = append(l, 0)
+			copy(l[pos+1:], l[pos:])
+			l[pos] = v
+		}
+		switch r.Intn(12) {
+		case 0: // adjacent repeat
+			p := r.Intn(len(l))
+			ins(p+1, l[p])
+		case 1: // repeat one apart (needs another card in between)
+			if len(l) >= 2 {
+				p := r.Intn(len(l) - 1)
+				ins(p+2, l[p])
+			} else {
+				l = append(l, pick(), l[0])
+			}
+		case 2: // first card again at the end
+			l = append(l, l[0])
+		case 3: // last card again at the front
+			ins(0, l[len(l)-1])
+		case 4: // a card three times
+			v := l[r.Intn(len(l))]
+			ins(r.Intn(len(l)+1), v)
+			ins(r.Intn(len(l)+1), v)
+		case 5: // a card that does not exist, anywhere
+			ins(r.Intn(len(l)+1), num+r.Range(0, 3))
+		case 6:
+			if r.Chance(30) {
+				l = []int{}
+			}
+		}
+		return l
+	}
+	var reqs []dastard.VerifC19LanceroReq
+	var sb strings.Builder
+	nq := r.Pick(1, 1, 2, 2, 3)
+	for q := 0; q < nq; q++ {
+		l := list()
+		maxcols := 0
+		for _, c := range l {
+			maxcols = maxi(maxcols, ncolsOf[c])
+		}
+		firstRow := r.Pick(0, 1, 1, 1, 2, 10, -3)
+		sepCols := r.Pick(0, 0, nrows, nrows+r.Range(1, 20), 100, maxi(0, nrows-1))
+		cs := nrows
+		if sepCols > 0 {
+			cs = sepCols
+		}
+		sepCards := r.Pick(0, 0, cs*maxcols, cs*maxcols+r.Range(1, 100), 10000, maxi(0, cs*maxcols-1))
+		reqs = append(reqs, dastard.VerifC19LanceroReq{ActiveCards: l, FirstRow: firstRow, SepCards: sepCards, SepCols: sepCols})
+		fmt.Fprintf(&sb, " Q %d %d %d %s", firstRow, sepCards, sepCols, ints(l))
+		for p := r.Pick(0, 1, 1, 1, 2); p > 0; p-- {
+			reqs = append(reqs, dastard.VerifC19LanceroReq{Prepare: true})
+			sb.WriteString(" PL")
+		}
+	}
+	if !reqs[len(reqs)-1].Prepare {
+		reqs = append(reqs, dastard.VerifC19LanceroReq{Prepare: true})
+		sb.WriteString(" PL")
+	}
+	var hd strings.Builder
+	fmt.Fprintf(&hd, "H %d D %d %d", len(reqs)+1, nrows, len(avail))
+	for _, d := range avail {
+		fmt.Fprintf(&hd, " %d %d", d.Devnum, d.Ncols)
+	}
+	start := r.Chance(40)
+	base := os.Getenv("VERIF_WORKDIR")
+	if base == "" {
+		base = filepath.Join(os.TempDir(), fmt.Sprintf("c19_start_%d", os.Getpid()))
+	}
+	out := c19Guard(func() string {
+		ts, ds, err := dastard.VerifC19LanceroConfigureSeq(nrows, avail, reqs, filepath.Join(base, "c19cringe"))
+		if err != nil {
+			return "HARNESS-ERROR"
+		}
+		last := ts[len(ts)-1]
+		st := start && !last.Rejected && len(last.Streams) > 0 && len(last.Streams) <= 96
+		return "K " + c19HistOut(ts, ds, st)
+	})
+	o.Case("%s%s %d OUT %s", hd.String(), sb.String(), b2i(start), out)
 }
